@@ -55,8 +55,12 @@ def apply_event(segm, ev):
     if op == 'read':
         return getattr(segm, ev['attr'])
     if op == 'readall':
-        for a in ['labels', 'areas', 'is_consecutive', 'missing_labels', 'background_area', 'slices', 'bbox', 'nlabels', 'max_label']:
-            getattr(segm, a)
+        for a in ['labels', 'areas', 'is_consecutive', 'missing_labels', 'background_area', 'slices', 'bbox', 'nlabels', 'max_label',
+                  'polygons', 'segments', 'deblended_labels', 'deblended_labels_map', 'data_ma']:
+            try:
+                getattr(segm, a)
+            except Exception:  # noqa  (reported by the probes)
+                pass
         return None
     if op == 'reassign':
         return segm.reassign_labels(ev['labels'], ev['new'], relabel=ev['relabel'])
